@@ -39,7 +39,11 @@ pub const K_CONVERT: u16 = 20;
 pub const K_DROP: u16 = 21;
 pub const LAST_COMMON: u16 = K_WRITE_FMT;
 
-const POOL: &[char] = &['a', 'Z', '0', ' ', '\0', 'é', 'ß', '€', '한', '\u{0301}', '😀', '𝄞', 'x', '\n', 'ü', '中'];
+// 1-4 byte characters, NUL, a combining mark, and the first/last code point of every UTF-8 encoded length
+const POOL: &[char] = &[
+    'a', 'Z', '0', ' ', '\0', 'é', 'ß', '€', '한', '\u{0301}', '😀', '𝄞', 'x', '\n', 'ü', '中', '\u{7f}', '\u{80}', '\u{7ff}', '\u{800}', '\u{ffff}', '\u{10000}', '\u{10ffff}',
+    '\u{d7ff}', '\u{e000}',
+];
 
 pub fn text(seed: u64, n: usize) -> String {
     let mut r = Rng::new(seed);
